@@ -24,7 +24,12 @@ func c16Scenario(id string, race bool, n, fixedPool int, hasOpt, random bool, pr
 		rep := map[string]any{"scenario": id, "len": n, "fixed_pool": fixedPool, "option": hasOpt, "random_order": random, "duration_profile": profile}
 		c.Eval(1)
 		c.Distinct(id)
-		list := make([]int, n)
+		// the caller's slice has spare capacity filled with values that are NOT elements (f must never see them)
+		backing := make([]int, n+9)
+		for i := range backing {
+			backing[i] = -7000 - i
+		}
+		list := backing[:n]
 		for i := range list {
 			list[i] = 1000 + i // unique elements
 		}
@@ -281,8 +286,94 @@ func c16OptionReuse(id string, fixedPool int, random bool, lens []int) core.Scen
 	}}
 }
 
+// result types that are interfaces, with f returning nil for some elements (a nil result is a result like any other)
+func c16NilResults(id string, n, fixedPool int, random bool) core.Scenario {
+	return core.Scenario{ID: id, Class: "PMap.nil-results", Run: func(c *core.Ctx) {
+		rep := map[string]any{"scenario": id, "len": n, "fixed_pool": fixedPool, "random_order": random}
+		c.Eval(2)
+		c.Distinct(id)
+		list := make([]int, n)
+		for i := range list {
+			list[i] = i
+		}
+		for _, kind := range []string{"error", "any"} {
+			var applied atomic.Int32
+			done := make(chan struct{})
+			var nils, total int
+			var pv any
+			go func() {
+				defer close(done)
+				pv, _ = core.Catch(func() {
+					opt := &fpgo.PMapOption{FixedPool: fixedPool, RandomOrder: random}
+					if kind == "error" {
+						res := fpgo.PMap(func(x int) error {
+							applied.Add(1)
+							runtime.Gosched()
+							if x%3 != 1 {
+								return nil
+							}
+							return fmt.Errorf("e%d", x)
+						}, opt, list...)
+						total = len(res)
+						for _, r := range res {
+							if r == nil {
+								nils++
+							}
+						}
+					} else {
+						res := fpgo.PMap(func(x int) any {
+							applied.Add(1)
+							runtime.Gosched()
+							if x%3 != 1 {
+								return nil
+							}
+							return x
+						}, opt, list...)
+						total = len(res)
+						for _, r := range res {
+							if r == nil {
+								nils++
+							}
+						}
+					}
+				})
+			}()
+			v, dump := core.AwaitOrStuck(done, 2*time.Second, 60*time.Second, func() int64 { return int64(applied.Load()) })
+			if v == "stuck" {
+				c.Violationf("PMap:does-not-return", map[string]any{"scenario": id, "goroutines": core.RepoGoroutineSummary(dump)}, "PMap with result type %s (f returns nil for two thirds of the elements) never returned", kind)
+				return
+			}
+			if v != "done" {
+				c.Inconclusive("watchdog in " + id)
+				return
+			}
+			if pv != nil {
+				c.Violationf("PMap:panic:"+core.NormalizePanic(fmt.Sprint(pv)), rep, "PMap with result type %s panics: %v", kind, pv)
+				return
+			}
+			wantNils := 0
+			for _, x := range list {
+				if x%3 != 1 {
+					wantNils++
+				}
+			}
+			if total != n || nils != wantNils || int(applied.Load()) != n {
+				c.Violationf("PMap:nil-results", rep, "PMap(len %d, FixedPool %d, RandomOrder %v) with result type %s where f returns nil for %d elements: %d results (%d nil), f applied %d times", n, fixedPool, random, kind, wantNils, total, nils, applied.Load())
+				return
+			}
+		}
+	}}
+}
+
 func c16Scenarios(c *core.Ctx, race bool) []core.Scenario {
 	var out []core.Scenario
+	for _, n := range []int{1, 2, 3, 8, 33} {
+		for _, fp := range []int{0, 1, 2, 3, n} {
+			for _, random := range []bool{false, true} {
+				out = append(out, c16NilResults(fmt.Sprintf("nil-results-n%d-fp%d-rnd%v-race%v", n, fp, random, race), n, fp, random))
+			}
+		}
+	}
 	for i, cfg := range [][5]int{{300, -1, 3, -1, 1}, {600, 0, 2, 1, 1}, {1100, 1000, 3, 2, 1}, {80, -1, 4, -1, 4}, {40, 8, 5, 2, 3}, {2100, -1, 2, -1, 1}, {5000, 4500, 2, 0, 1}} {
 		if race && i%2 == 1 {
 			continue
@@ -349,7 +440,7 @@ func init() {
 		Meta: func(c *core.Ctx) core.Meta {
 			return core.Meta{
 				Level:       "exploration",
-				Rule:        "list lengths {0,1,2,3,5,8,13,21,34,64} (+7 more in thorough) and long lists {1030,1100,2100,5000} (thorough up to 70000) with pools {1,2,4,7,64,n/2,n,0} x FixedPool in {-1,0,1,2,len-1,len,len+1,1000} and no option x {ordered, RandomOrder} x 5 duration profiles (uniform, decreasing with the index so that completion order reverses, one very slow first element, PRNG yields, sleeps); f is the monitor: per-element atomic call counters (unique elements), a concurrency gauge whose maximum is compared with min(FixedPool, len), result compared with the harness' own map (permutation for RandomOrder), gauge must be 0 when PMap returns; termination by the stuck detector; nested use (f itself calls PMap; 300..1100 outer workers (thorough 5000), or several concurrent outer calls); one *PMapOption value reused across sequences of calls with lists of lengths {5,0,64,1,40,0,0,33,2,48} (bound per call from the FixedPool the caller wrote); repeated in the -race build (deciding: result assembly must be race-free). distinct_nontrivial = distinct scenarios",
+				Rule:        "list lengths {0,1,2,3,5,8,13,21,34,64} (+7 more in thorough) and long lists {1030,1100,2100,5000} (thorough up to 70000) with pools {1,2,4,7,64,n/2,n,0} x FixedPool in {-1,0,1,2,len-1,len,len+1,1000} and no option x {ordered, RandomOrder} x 5 duration profiles (uniform, decreasing with the index so that completion order reverses, one very slow first element, PRNG yields, sleeps); f is the monitor: per-element atomic call counters (unique elements), a concurrency gauge whose maximum is compared with min(FixedPool, len), result compared with the harness' own map (permutation for RandomOrder), gauge must be 0 when PMap returns; termination by the stuck detector; interface result types with nil results; caller slices with spare capacity holding non-elements; nested use (f itself calls PMap; 300..1100 outer workers (thorough 5000), or several concurrent outer calls); one *PMapOption value reused across sequences of calls with lists of lengths {5,0,64,1,40,0,0,33,2,48} (bound per call from the FixedPool the caller wrote); repeated in the -race build (deciding: result assembly must be race-free). distinct_nontrivial = distinct scenarios",
 				Assumptions: []string{"FixedPool <= 0 or absent means len(list) goroutines", "the stuck verdict needs: no return, no hook progress for 2 s and no library goroutine running/runnable/sleeping in two successive dumps"},
 			}
 		},
